@@ -1,5 +1,5 @@
 import json,glob,sys
-pid=sys.argv[1]
+pid=sys.argv[1]; base=sys.argv[2] if len(sys.argv)>2 else '/verif/replays'
 for f in sorted(glob.glob(f'{base}/{pid}/*.json')):
     d=json.load(open(f))
     w=d['witness']
